@@ -65,7 +65,7 @@ def judge_metadata(ctx, res, md, w, extractor):
     # user metadata
     user = {k: v for k, v in md.items() if isinstance(k, str) and k.startswith('u_')}
     ran = [e for e in j.events if e['ev'] == 'extractor']
-    if extractor == 'ok':
+    if extractor in ('ok', 'ok_calls_output'):
         if user != {'u_tag': 'live', 'u_n': 3}:
             ctx.violation('user metadata differs from what the extractor returned', dict(w, got=repr(user)))
         ctx.count('extractor_ok_checked')
